@@ -152,7 +152,8 @@ func (v U64) StoredValue(atree.SlabStorage) (atree.Value, error) { return v, nil
 func (v U64) ChildStorables() []atree.Storable                    { return nil }
 func (v U64) CanCopyNonRefSimple() bool                           { return true }
 func (v U64) CopyNonRefSimple() (atree.Storable, error)           { return v, nil }
-func (v U64) ByteSize() uint32                                    { return cborTagLen + uintSize(uint64(v)) }
+// like Cadence and the repository's own test values, the size of an unsigned integer comes from the library's helper
+func (v U64) ByteSize() uint32                                    { return cborTagLen + atree.GetUintCBORSize(uint64(v)) }
 func (v U64) String() string                                      { return fmt.Sprintf("%d", uint64(v)) }
 func (v U64) Encode(enc *atree.Encoder) error {
 	if err := enc.CBOR.EncodeRawBytes([]byte{0xd8, tagU64}); err != nil {
